@@ -199,3 +199,6 @@ func FireTimer(t *time.Timer, f func()) bool {
 	}
 	return false
 }
+
+// Long is set by -long: probes that need tens of seconds of real time run too (C18's own check only).
+var Long bool
